@@ -176,6 +176,22 @@ func (e *Engine) Slice(v ssa.Value, opts SliceOpts, visit func(ssa.Value) Verdic
 			} else {
 				leaf(v)
 			}
+		case *ssa.MakeSlice:
+			// slices filled element by element: s[i] = v
+			n := 0
+			for _, r := range *x.Referrers() {
+				if ia, ok := r.(*ssa.IndexAddr); ok {
+					for _, rr := range *ia.Referrers() {
+						if st, ok := rr.(*ssa.Store); ok && st.Addr == ia && !after(opts.At, st) {
+							walk(st.Val, depth+1, ctx)
+							n++
+						}
+					}
+				}
+			}
+			if n == 0 {
+				leaf(v)
+			}
 		case *ssa.Alloc:
 			n := 0
 			for _, r := range *x.Referrers() {
